@@ -933,3 +933,63 @@ def _rel(bad):
     ]
 GROUPS["g27"] = _rel(True)
 GROUPS["p15"] = _rel(False)
+
+# ---- round 6: the four defects repaired as F20-F23, reintroduced; the shapes of seeded/*-f; their harmless twins
+GROUPS["g28"] = [
+    # F20: condense_newlines advances the cursor twice per merged newline again
+    E("c02-newlines-skip-one", ["C02"], "harper-core/src/document.rs",
+      "                    if let TokenKind::Newline(n) = child_tok.kind {\n                        *start_count += n;\n                        start_tok.span.end = child_tok.span.end;\n                        remove_these.push_back(cursor);\n                    } else {",
+      "                    if let TokenKind::Newline(n) = child_tok.kind {\n                        *start_count += n;\n                        start_tok.span.end = child_tok.span.end;\n                        remove_these.push_back(cursor);\n                        cursor += 1;\n                    } else {",
+      "R-C02-adjacent:Document::condense_newlines:stride"),
+    # F21: ModalOf panics on an unexpected match length again
+    E("c01-modal-of-unreachable", ["C01"], "harper-core/src/linting/modal_of.rs",
+      "            // (a space followed by a line break is two), so other lengths do occur.\n            _ => return None,",
+      "            // (a space followed by a line break is two), so other lengths do occur.\n            _ => unreachable!(),",
+      "R-C01-matchlen:<ModalOf@PatternLinter>::match_to_lint:default-arm"),
+    # F22: lex_login searches the whole rest of the text for '@' again
+    E("c12-login-unbounded-search", ["C12"], "harper-core/src/lexing/url.rs",
+      "        .position(|c| matches!(c, '@' | '/') || c.is_whitespace())\n        .filter(|i| source[*i] == '@');",
+      "        .position(|c| *c == '@');",
+      "R-C12-lookahead:harper_core::lexing::url::lex_login:position"),
+    # F23: update_document compares the merged dictionary with the bare file dictionary again
+    E("c05-compare-merged-dictionary", ["C05"], "harper-ls/src/backend.rs",
+      "        if doc_state.base_dict != dict {\n            doc_state.base_dict = dict.clone();",
+      "        if doc_state.dict != dict {\n            doc_state.base_dict = dict.clone();",
+      "R-C05-rebuild:Backend::update_document:compared-field"),
+    # the git-commit cut is taken from the end of the file
+    E("c04-gitcut-from-the-end", ["C04"], "harper-ls/src/git_commit_parser.rs",
+      "            .position(|c| *c == '#')", "            .rposition(|c| *c == '#')",
+      "R-C04-gitcut:GitCommitParser::parse:cut"),
+    # the port search falls back to the length of another slice
+    E("c02-fallback-other-slice", ["C02"], "harper-core/src/lexing/mod.rs",
+      "    let end = source\n        .iter()\n        .position(|c| !c.is_english_lingual() && !c.is_ascii_digit())\n        .unwrap_or(source.len());",
+      "    let body = &source[1..];\n    let end = 1 + body\n        .iter()\n        .position(|c| !c.is_english_lingual() && !c.is_ascii_digit())\n        .unwrap_or(source.len());",
+      "R-C02-fallback:harper_core::lexing::lex_word:fallback#1"),
+    # the table of open documents keyed by the lower-cased path
+    E("c08-doc-table-keyed-by-folded-uri", ["C08"], "harper-ls/src/backend.rs",
+      "        let mut doc_lock = self.doc_state.lock().await;\n        doc_lock.remove(&url);\n",
+      "        let mut doc_lock = self.doc_state.lock().await;\n        let folded = Url::parse(&url.as_str().to_lowercase()).unwrap_or_else(|_| url.clone());\n        doc_lock.remove(&folded);\n",
+      "R-C08-key:<Backend@LanguageServer>::did_close::{closure}:remove"),
+]
+GROUPS["p16"] = [
+    # a division by a counter that is tested first
+    E("p-c01-division-guarded", ["C01"], "harper-core/src/language_detection.rs",
+      "    if (valid_words as f64 / total_words as f64) < 0.7 {",
+      "    if total_words > 0 && valid_words * 10 / total_words < 7 {",
+      None),
+    # the git-commit cut located by a forward find
+    E("p-c04-gitcut-forward-take-while", ["C04"], "harper-ls/src/git_commit_parser.rs",
+      "        let end = source\n            .iter()\n            .position(|c| *c == '#')\n            .unwrap_or(source.len());",
+      "        let end = source.iter().take_while(|c| **c != '#').count();",
+      None),
+    # the fallback is the length of the searched sub-slice
+    E("p-c02-fallback-same-slice", ["C02"], "harper-core/src/lexing/mod.rs",
+      "    let end = source\n        .iter()\n        .position(|c| !c.is_english_lingual() && !c.is_ascii_digit())\n        .unwrap_or(source.len());",
+      "    let whole = source;\n    let end = whole\n        .iter()\n        .position(|c| !c.is_english_lingual() && !c.is_ascii_digit())\n        .unwrap_or(whole.len());",
+      None),
+    # the credentials search bounded in another way
+    E("p-c12-login-bounded-by-take-while", ["C12"], "harper-core/src/lexing/url.rs",
+      "        .position(|c| matches!(c, '@' | '/') || c.is_whitespace())\n        .filter(|i| source[*i] == '@');",
+      "        .position(|c| matches!(c, '@' | '/' | ' ' | '\\n' | '\\t' | '\\r'))\n        .filter(|i| source[*i] == '@');",
+      None),
+]
